@@ -19,6 +19,19 @@ REVIEWED_LOOPS = {
 }
 
 
+def _inherits(prog, fn):
+    """A non-public function all of whose callers are one reviewed function carries that function's loop (the loop
+    was moved into a helper)."""
+    b = prog.body(fn)
+    if b is None or str(b.vis) == "pub":
+        return None
+    cg = prog.callgraph()
+    cs = {k for k, v in cg.items() if fn in v}
+    if len(cs) == 1 and next(iter(cs)) in REVIEWED_LOOPS and not REVIEWED_LOOPS[next(iter(cs))][0]:
+        return next(iter(cs))
+    return None
+
+
 def cone(prog):
     c = prog.cone(ROOTS)
     return {k for k in c if not (k.startswith("oq3_parser::grammar") or k.startswith("oq3_parser::parser::"))}
@@ -112,8 +125,8 @@ def run(prog, R):
             elif next_blocks and cycles_pass_through(b, comp, next_blocks):
                 its = sorted(set(calls[x] for x in next_blocks))
                 R.ob("C01.0-loop-class", key, True, at, f"iterator-driven: every cycle passes through {its}")
-            elif fn in REVIEWED_LOOPS:
-                must, why = REVIEWED_LOOPS[fn]
+            elif fn in REVIEWED_LOOPS or _inherits(prog, fn):
+                must, why = REVIEWED_LOOPS[fn] if fn in REVIEWED_LOOPS else REVIEWED_LOOPS[_inherits(prog, fn)]
                 ok = True
                 if must:
                     mb = {x for x, c in calls.items() if c == must}
